@@ -121,6 +121,10 @@ func (formatter *typeFormatter) doFormatType(def ast.Type, resolveBuilders bool)
 
 		if def.IsScalar() {
 			typeName := def.AsScalar().ScalarKind
+			if typeName == ast.KindNull {
+				// there is no null type in Go
+				typeName = ast.KindAny
+			}
 			if def.HasHint(ast.HintStringFormatDateTime) {
 				typeName = "time.Time"
 				formatter.imports.Add("time", "time")
